@@ -7,6 +7,7 @@
 -/
 import TealerModel.Lemmas.Dfs
 import TealerModel.Props.Common
+import TealerModel.Lemmas.Exact
 namespace Tealer.C03
 
 /-- if every matched walk from the entry to a leaf (respecting the loop / recursion cuts) contains a validated block,
@@ -53,5 +54,48 @@ theorem C03_size_check_validates (n : Nat) (hn : n < 16) :
   simp [checksField, MAX_GROUP_SIZE, this]
 
 example : checksField .feeCheck { maxFee := 1000 } = true := by decide
+
+/-- the integer and transaction-kind sets read by membership: union / intersection exact, null set empty -/
+theorem natSet_exact (A : Analysis NatSet) (hd : A.dom = natSetDomain) : Exact.ExactLaws A (fun (s : NatSet) (v : Nat) => v ∈ s) := by
+  refine ⟨?_, ?_, ?_⟩
+  · intro a b v; rw [hd]; exact OSet.mem_union v a b
+  · intro a b v; rw [hd]; exact OSet.mem_inter v a b
+  · intro v; rw [hd]; simp [natSetDomain]
+
+/-- EXACTNESS OF THE COMPUTED SETS (forward pass; group sizes / indices and transaction kinds): a value is in the set the
+    solver returns for a block only if a chain of predecessors back to the entry justifies it — every block constraint and
+    every edge constraint on the chain admits the value.  Contrapositive (the C03 reading): if every such chain is cut by
+    a constraint that excludes the dangerous value, the value is absent from the block's set, so the block validates and
+    no path through it is reported (`C03_no_report`). -/
+theorem C03_forward_exact (A : Analysis NatSet) (hd : A.dom = natSetDomain) (g : Graph) (univ : NatSet)
+    (bc : Nat → NatSet) (pc : Nat → Nat → NatSet) (r : List (Nat × NatSet)) (h : solveFwd A g univ bc pc = some r)
+    (k v : Nat) (hv : v ∈ getMap r k A.dom.null) :
+    Exact.Justified A (fun (s : NatSet) (v : Nat) => v ∈ s) g univ bc pc v k :=
+  Exact.solveFwd_justified (natSet_exact A hd) g univ bc pc r h k v hv
+
+theorem C03_excluded_without_justification (A : Analysis NatSet) (hd : A.dom = natSetDomain) (g : Graph) (univ : NatSet)
+    (bc : Nat → NatSet) (pc : Nat → Nat → NatSet) (r : List (Nat × NatSet)) (h : solveFwd A g univ bc pc = some r)
+    (k v : Nat) (hno : ¬ Exact.Justified A (fun (s : NatSet) (v : Nat) => v ∈ s) g univ bc pc v k) :
+    v ∉ getMap r k A.dom.null :=
+  fun hv => hno (C03_forward_exact A hd g univ bc pc r h k v hv)
+
+/-- the generic statement, for any domain with an exact membership reading -/
+theorem C03_forward_exact_generic {D V : Type} [DecidableEq D] {A : Analysis D} {mem : D → V → Prop}
+    (L : Exact.ExactLaws A mem) (g : Graph) (univ : D) (bc : Nat → D) (pc : Nat → Nat → D) (r : List (Nat × D))
+    (h : solveFwd A g univ bc pc = some r) (k : Nat) (v : V) (hv : mem (getMap r k A.dom.null) v) :
+    Exact.Justified A mem g univ bc pc v k :=
+  Exact.solveFwd_justified L g univ bc pc r h k v hv
+
+/-- both passes, any domain with an exact membership reading: a value in the FINAL set of a block (what the detectors
+    read) is justified backward down to a leaf through blocks whose forward sets contain it, and in each forward set it is
+    justified forward from the entry — the computed context contains nothing but what some entry-to-leaf chain of the
+    graph supports -/
+theorem C03_contexts_exact {D V : Type} [DecidableEq D] {A : Analysis D} {mem : D → V → Prop}
+    (L : Exact.ExactLaws A mem) (g : Graph) (univ : D) (bc : Nat → D) (pc : Nat → Nat → D) (r : List (Nat × D))
+    (h : solve A g univ bc pc = .ok r) :
+    ∃ rout, solveFwd A g univ bc pc = some rout ∧
+      (∀ k v, mem (getMap rout k A.dom.null) v → Exact.Justified A mem g univ bc pc v k) ∧
+      (∀ k v, mem (getMap r k A.dom.null) v → Exact.BJustified A mem g (fun k => getMap rout k A.dom.null) v k) :=
+  Exact.solve_justified L g univ bc pc r h
 
 end Tealer.C03
